@@ -200,23 +200,34 @@ def r2(ctx):
 def r3(ctx):
     ctx.analysed_files.add(SHAPE)
     fn = ctx.py.func(SHAPE, "compute_gyration_tensor")      # the tensor itself and principal_moments: r_tensor()
-    p = [sym("p0"), sym("p1"), sym("p2")]
-    want = {"asphericity": p[2] - (p[0] + p[1]) / 2, "acylindricity": p[1] - p[0],
-            "relative_shape_anisotropy": Rat(Poly.const(3)) / 2 * (p[0] * p[0] + p[1] * p[1] + p[2] * p[2]) / ((p[0] + p[1] + p[2]) * (p[0] + p[1] + p[2])) - Rat(Poly.const(1)) / 2}
-    for q, w in want.items():
+    # each descriptor evaluated whole (sa/tensym.py) with principal_moments(traj) summarised as a 2-frame array of symbols p[f,0] <= p[f,1] <= p[f,2]
+    from ..tensym import TenSym, Ten, Obj, Raised
+    want = {"asphericity": lambda p: p[2] - (p[0] + p[1]) / 2, "acylindricity": lambda p: p[1] - p[0],
+            "relative_shape_anisotropy": lambda p: Rat(Poly.const(3)) / 2 * (p[0] * p[0] + p[1] * p[1] + p[2] * p[2]) / ((p[0] + p[1] + p[2]) * (p[0] + p[1] + p[2])) - Rat(Poly.const(1)) / 2}
+    for q, wf in want.items():
         f = ctx.py.func(SHAPE, q)
         ctx.analysed_functions.add(SHAPE + ":" + q)
-        first = [st for st in f.body if isinstance(st, ast.Assign) and dotted(st.targets[0]) == "pm"]
-        ok0 = bool(first) and _n(src(first[0].value)) == "principal_moments(traj)"
+        traj = Obj(tag="traj", _lenient=True)
+        seen = []
+        pmt = Ten.sym("p", (2, 3))
+
+        def pmodel(ev, call, seen=seen, pmt=pmt):
+            seen.append([ev.ex(a_) for a_ in call.args] + [ev.ex(k_.value) for k_ in call.keywords])
+            return pmt
+        desc = "%s = %r (p0 <= p1 <= p2 the principal moments)" % (q, wf([sym("p0"), sym("p1"), sym("p2")]))
         try:
-            ps = PySym({"pm": Vec(p)})
-            ps.run([st for st in f.body if not (isinstance(st, ast.Assign) and dotted(st.targets[0]) == "pm")])
-            got = ps.returned
+            ts = TenSym({}, models={"principal_moments": pmodel})
+            got = ts.run_fn(f, traj=traj)
+        except Raised as e:
+            ctx.violated("C16-R3", f, SHAPE, q, desc, "%s raises %s on a 2-frame trajectory" % (q, e.exc or e))
+            continue
         except PUnsupported as e:
             ctx.undecided("C16-R3", f, SHAPE, q, "formula", "not evaluable: %s" % e)
             continue
-        ctx.decide(ok0 and got is not None and not isinstance(got, Vec) and ps.equal(got, w), "C16-R3", f, SHAPE, q, "%s = %r (p0 <= p1 <= p2 the principal moments)" % (q, w), "",
-                   "%s evaluates %r; the definition is %r" % (q, got, w))
+        ok0 = len(seen) >= 1 and all(len(a_) == 1 and a_[0] is traj for a_ in seen)
+        ok = isinstance(got, Ten) and got.shape == (2,) and all((got.data[fr] - wf([pmt.data[3 * fr + k_] for k_ in range(3)])).n.is_zero() for fr in range(2))
+        ctx.decide(ok0 and ok, "C16-R3", f, SHAPE, q, desc, "",
+                   "%s evaluates %s for frame 0; the definition is %r" % (q, (got.data[0] if isinstance(got, Ten) and got.data else got) if ok0 else "principal moments of something other than its trajectory", wf([pmt.data[k_] for k_ in range(3)])))
     al = ctx.py.mod(SHAPE).module_assign("relative_shape_antisotropy")
     ctx.decide(al is not None and src(al) == "relative_shape_anisotropy", "C16-R3", al or fn, SHAPE, "relative_shape_antisotropy", "alias of relative_shape_anisotropy", "", "the legacy alias points elsewhere")
 
